@@ -211,16 +211,16 @@ def e_local_background(c):
 # ----------------------------------------------------------------------
 def _thr(c):
     level = 25.0 if c.cond == 'clean' else 4.0
-    return level
+    return level * c.scale
 
 
 @entry('detect_threshold')
 def e_detect_threshold(c):
     from photutils.segmentation import detect_threshold
-    bkg = c.arr(np.full(c.shape, 0.5), 'background', secondary=True)
+    bkg = c.arr(np.full(c.shape, c.s(0.5)), 'background', secondary=True)
     c.call(detect_threshold, c.data, 2.0, background=bkg, error=c.error, mask=c.mask)
     c.call(detect_threshold, c.data, 3.0, mask=c.mask)
-    c.call(detect_threshold, c.data, 3.0, background=c.q(0.1), error=c.q(1.0))
+    c.call(detect_threshold, c.data, 3.0, background=c.q(c.s(0.1)), error=c.q(c.s(1.0)))
 
 
 def _segm(c, deblend=False):
@@ -281,7 +281,7 @@ def e_source_catalog(c):
     if rng.random() < 0.7:
         kw['convolved_data'] = c.arr(conv, 'convolved_data', secondary=True, allow_int=False)
     if rng.random() < 0.5:
-        kw['background'] = c.arr(np.full(c.shape, 0.3) + rng.normal(0, 0.01, c.shape), 'background',
+        kw['background'] = c.arr(np.full(c.shape, c.s(0.3)) + rng.normal(0, c.s(0.01), c.shape), 'background',
                                  secondary=True, allow_int=False)
     if rng.random() < 0.4:
         kw['wcs'] = make_wcs(c.shape)
@@ -387,7 +387,7 @@ def _mk_finder_entry(name):
         if rng.random() < 0.3:
             kw['brightest'] = 2
         if rng.random() < 0.3:
-            kw['peakmax'] = c.q(250.0)
+            kw['peakmax'] = c.q(c.s(250.0))
         f = c.call(getattr(D, name), thr, c.fwhm, **kw)
         if f is None:
             return
@@ -406,7 +406,7 @@ def e_starfinder(c):
     rng = c.rng
     kern = c.arr(c.raw_kernel * 3.0, 'kernel', secondary=True, unit=False, allow_int=False)
     f = c.call(StarFinder, c.q(_thr(c) * 1.5), kern, min_separation=3.0,
-               brightest=(2 if rng.random() < 0.3 else None), peakmax=(c.q(250.0) if rng.random() < 0.3 else None))
+               brightest=(2 if rng.random() < 0.3 else None), peakmax=(c.q(c.s(250.0)) if rng.random() < 0.3 else None))
     if f is None:
         return
     if rng.random() < 0.5:
@@ -550,7 +550,7 @@ def e_psf_photometry(c):
         if rng.random() < 0.3:
             extra['group_id'] = np.arange(n) // 2 + 1
         if rng.random() < 0.3:
-            extra['local_bkg'] = c.q(np.full(n, 0.1))
+            extra['local_bkg'] = c.q(np.full(n, c.s(0.1)))
         init = c.star_table(names, extra=extra)
     t = c.call(p, c.data, mask=c.mask, error=c.error, init_params=init)
     c.read_all(p)
@@ -859,13 +859,13 @@ def e_poisson(c):
 @entry('calc_total_error')
 def e_total_error(c):
     from photutils.utils import calc_total_error
-    bkg_err = c.arr(np.full(c.shape, 1.2), 'bkg_error', secondary=True)
-    gain = c.plain(np.full(c.shape, 2.0), 'effective_gain')
+    bkg_err = c.arr(np.full(c.shape, c.s(1.2)), 'bkg_error', secondary=True)
+    gain = c.plain(np.full(c.shape, 2.0 / c.scale), 'effective_gain')
     if c.unit is not None:
         import astropy.units as u
-        gain = c.own(np.full(c.shape, 2.0) * u.electron / c.unit, 'effective_gain')
+        gain = c.own(np.full(c.shape, 2.0 / c.scale) * u.electron / c.unit, 'effective_gain')
     c.call(calc_total_error, c.data, bkg_err, gain)
-    c.call(calc_total_error, c.data, bkg_err, 2.0 if c.unit is None else gain[0, 0])
+    c.call(calc_total_error, c.data, bkg_err, 2.0 / c.scale if c.unit is None else gain[0, 0])
 
 
 @entry('ImageDepth', slow=True)
@@ -896,10 +896,10 @@ def e_gini(c):
 def e_data_properties(c):
     from photutils.morphology import data_properties
     d, e, m = _cutout(c)
-    bkg = c.arr(np.full(np.shape(d), 0.2), 'background', secondary=True)
+    bkg = c.arr(np.full(np.shape(d), c.s(0.2)), 'background', secondary=True)
     r = c.call(data_properties, d, mask=m, background=bkg)
     c.read_all(r)
-    c.call(data_properties, d, mask=m, background=c.q(0.1))
+    c.call(data_properties, d, mask=m, background=c.q(c.s(0.1)))
 
 
 @entry('CutoutImage')
@@ -996,6 +996,7 @@ def _galaxy(c):
     img = 200 * np.exp(-r / 6.0) + rng.normal(0, 0.5, (ny, nx))
     if c.cond == 'clean':
         img = np.abs(img) + 1
+    img = img * c.scale
     if c.cond in ('nonfinite', 'mask_nonfinite'):
         img[5, 5] = np.nan
         img[int(y0) + 4, int(x0) + 3] = np.nan
@@ -1602,7 +1603,7 @@ def e_source_catalog_neighbours(c):
         if not (4 < x2 < nx - 5 and 4 < y2 < ny - 5):
             x2, y2 = x - d * np.cos(ang), y - d * np.sin(ang)
         fin = np.isfinite(img)
-        img[fin] += (120.0 * np.exp(-((xx - x2) ** 2 + (yy - y2) ** 2) / (2 * c.sigma ** 2)))[fin]
+        img[fin] += (120.0 * c.scale * np.exp(-((xx - x2) ** 2 + (yy - y2) ** 2) / (2 * c.sigma ** 2)))[fin]
         centres += [(x, y), (x2, y2)]
     for (x, y) in c.xy[3:]:
         centres.append((x, y))
@@ -1623,7 +1624,7 @@ def e_source_catalog_neighbours(c):
               kron_params=(2.5, 1.4, 0.0) if rng.random() < 0.5 else (2.0, 1.0, 3.0),
               localbkg_width=int(rng.choice([0, 0, 5])))
     if rng.random() < 0.4:
-        kw['background'] = c.arr(np.full(c.shape, 0.2), 'background', secondary=True, allow_int=False)
+        kw['background'] = c.arr(np.full(c.shape, c.s(0.2)), 'background', secondary=True, allow_int=False)
     cat = c.call(SourceCatalog, data, segm, **kw)
     if cat is None:
         return
@@ -1872,7 +1873,7 @@ def e_param_segmentation(c):
         thr = c.own(np.asarray(thr) * c.unit, 'threshold_q')
     c.call(detect_sources, c.data, thr, c.par(5, 'npixels', kinds=('plain', 'int')), mask=c.mask)
     c.call(detect_threshold, c.data, c.par(2.0, 'nsigma', kinds=('plain', 'float')),
-           background=c.arr(np.full(c.shape, 0.0), 'background', secondary=True),
+           background=c.arr(np.full(c.shape, c.s(0.0)), 'background', secondary=True),
            error=c.arr(np.ones(c.shape), 'error1', secondary=True))
     f = c.call(SourceFinder, c.par([5, 3], 'npixels', kinds=('int', 'intview', 'list')), nlevels=4, progress_bar=False)
     if f is not None:
